@@ -173,3 +173,11 @@ package jsonapi
 //@ assert before MarshalResource#1 own-fields: $arg2 == listOf(url.Params.Fields, R_type($rh, $arg0).Name) && $arg3 == doc.RelData && $arg1 == doc.PrePath
 //@ assert before MarshalCollection#0 all-fields: $arg0 == doc.Data && $arg2 == url.Params.Fields && $arg3 == doc.RelData && $arg1 == doc.PrePath
 //@ loop 0 invariant inclusions: (cap(inclusions) == 0 || fresh(inclusions)) && unchanged(heap[*json.RawMessage]) && incOK(doc) && doc == pre(doc)
+
+// A link is marshaled as its href string, or as {href, meta} when it has meta.
+//@ func Link.MarshalJSON
+//@ props C03
+//@ modifies new[uint8], new[map[string]json.RawMessage], new[json.RawMessage], new[any]
+//@ assert before Marshal#0 href-arg: dyn($arg0) == type[string] && str($arg0) == l.HRef
+//@ assert before Marshal#2 members: "href" in m && "meta" in m && (forall k string :: k in m ==> k == "href" || k == "meta")
+//@ assert before Marshal#3 plain-href: dyn($arg0) == type[string] && str($arg0) == l.HRef
